@@ -147,6 +147,16 @@ def compare_program(ctx, c, coq_scripts, coq_sem, coq_enum, stats):
     if len(coq_scripts) != len(c["paths"]):
         ctx.violation(sig, dict(replay_base, stage="case file"), "Coq returned a different number of script results", no_input=True)
         return False
+    # float(result) is outside the model: decide first, on the EXACT values computed by Coq, whether the program
+    # stays in the domain where double arithmetic is exact for the generated expression shapes (every value a
+    # dyadic rational with numerator and denominator below 2^24: products of two and small sums stay below 2^53)
+    for cq in coq_scripts:
+        if cq and cq[0] == 1:
+            body = cq[4:]
+            for j in range(0, len(body), 2):
+                if abs(body[j]) >= 2 ** 24 or body[j + 1] >= 2 ** 24 or body[j + 1] & (body[j + 1] - 1):
+                    stats["outside_lossless_float_domain"] = stats.get("outside_lossless_float_domain", 0) + 1
+                    return None
     py_states = []
     for p, cq in zip(c["paths"], coq_scripts):
         prob = Fraction(p["prob"])
@@ -430,6 +440,10 @@ def k_simulator(ctx, only=None):
             stats["paths_hist"][b] = stats["paths_hist"].get(b, 0) + 1
             before = stats["paths_with_frozen_suffix"]
             good = compare_program(ctx, c, rs[3 * k], rs[3 * k + 1], rs[3 * k + 2], stats)
+            if good is None:
+                ctx.coverage["obligations"] -= 1        # not an instance: float rounding is not modelled
+                c["action"] = None
+                continue
             if stats["paths_with_frozen_suffix"] > before:
                 stats["programs_with_frozen_suffix"] += 1
             for kk, v in c["kinds"].items():
@@ -554,7 +568,10 @@ def k_guarded(ctx, only=None):
             stats["paths"] += len(c["paths"])
             ctx.count({"src": c["src"], "N": c["N"]}, nontrivial=len(c["paths"]) >= 2)
             ctx.coverage["evaluations"] += len(c["paths"]) - 1
-            if compare_program(ctx, c, rs[3 * k], rs[3 * k + 1], rs[3 * k + 2], stats):
+            good = compare_program(ctx, c, rs[3 * k], rs[3 * k + 1], rs[3 * k + 2], stats)
+            if good is None:
+                ctx.coverage["obligations"] -= 1
+            elif good:
                 stats["programs_agreeing"] += 1
                 ctx.coverage["discharged"] += 1
     ctx.coverage["guarded_assignment_correspondence"] = stats
@@ -698,7 +715,8 @@ def k_samplers(ctx, desc, proof_ok=True):
         calls = r["calls"]
         ctx.coverage["obligations"] += 3
         # -- 1. descriptor = what the code really passes --------------------------------
-        ok_desc = desc is not None and len(calls) == 1
+        has_desc = desc is not None and "sample" in desc.get(fam, {})
+        ok_desc = has_desc and len(calls) == 1
         expected = None
         if ok_desc:
             dsc = desc[fam]["sample"]
@@ -738,6 +756,8 @@ def k_samplers(ctx, desc, proof_ok=True):
         if ok_desc:
             st["descriptor_agrees"] += 1
             ctx.coverage["discharged"] += 1
+        elif not has_desc:
+            st["untranslated"] = st.get("untranslated", 0) + 1      # reported once, below; the call itself is still checked
         else:
             ctx.violation(f"descriptor-mismatch:{dist}", {"distribution": label, "recorded_call": calls,
                                                           "descriptor": None if desc is None else desc[fam]["sample"],
@@ -942,12 +962,8 @@ def drive(ctx, campaigns):
 
 def run(ctx):
     # T: sampler descriptors from the working tree
-    desc = None
-    trans_err = None
-    try:
-        desc = translate_sim.main()
-    except translate_sim.Unsupported as e:
-        trans_err = str(e)
+    desc = translate_sim.main()
+    trans_err = {k: v["error"] for k, v in desc.items() if "error" in v}
     ok, log = lib.coq_check_props(ctx)
     if not ok:
         # keep the executable part available for the search below
@@ -988,8 +1004,8 @@ def run(ctx):
                               ("samplers", k_samplers(ctx, desc, ok)), ("analysis", k_analysis(ctx))]))
     ctx.coverage["phase_seconds"] = phases
     found = len(ctx.violations) + len(ctx.known_hits) - before
-    if trans_err is not None and not ctx.violations:
-        ctx.violation("translator-unsupported", {"error": trans_err},
+    if trans_err and not ctx.violations:
+        ctx.violation("translator-unsupported", {"errors": trans_err},
                       f"a sample/get_support method left the translated subset: {trans_err}", no_input=True)
     if not ok and not ctx.violations:
         ctx.violation("proof-broken", {"theorem": "props/C12.v", "log": log[-3000:]},
